@@ -128,6 +128,12 @@ var props = map[string]propCfg{
 		Quick:    tierCfg{16, 20},
 		Thorough: tierCfg{16, 600},
 	},
+	"C01": {
+		Harness:  "./harness/c01",
+		Specs:    tsSpecs(),
+		Quick:    tierCfg{16, 20},
+		Thorough: tierCfg{16, 600},
+	},
 	"C04": {
 		Harness:  "./harness/c04",
 		Specs:    tsSpecs(),
